@@ -596,15 +596,21 @@ class _VersionIndependentUnmarshaller:
             CO_FAST_CELL = 0x40
             CO_FAST_FREE = 0x80
 
+            # Collect in lists: growing tuples with "+=" is quadratic, and both
+            # tables can be back-references to one large object.
+            varnames, cellvars, freevars = [], [], []
             for name, kind in zip(co_localsplusnames, co_localspluskinds):
                 if kind & CO_FAST_LOCAL:
-                    co_varnames += (name,)
+                    varnames.append(name)
                     if kind & CO_FAST_CELL:
-                        co_cellvars += (name,)
+                        cellvars.append(name)
                 elif kind & CO_FAST_CELL:
-                    co_cellvars += (name,)
+                    cellvars.append(name)
                 elif kind & CO_FAST_FREE:
-                    co_freevars += (name,)
+                    freevars.append(name)
+            co_varnames = tuple(varnames)
+            co_cellvars = tuple(cellvars)
+            co_freevars = tuple(freevars)
 
             co_nlocals = len(co_varnames)
             co_filename = self.r_object(bytes_for_s=bytes_for_s)
